@@ -41,14 +41,9 @@ Proof. unfold no_dangling_outputs_full. intros H. apply (f_equal (@List.length s
 Theorem timeout_registration_refuted : ~ timeout_registration_full.
 Proof. unfold timeout_registration_full. intros H. vm_compute in H. discriminate H. Qed.
 
-Theorem det_timeout_not_reset : exists ch cl, In ch nonempty_chains /\
+Theorem det_timeout_not_reset :
   In ("ppl_set_deterministic_timeout", CT_class Timeout) timeout_registrations /\
-  handles ch (of_class Timeout) = Some cl /\ ~ In ResetDetTimeout (c_actions cl).
-Proof.
-  destruct nonempty_chains as [|ch l] eqn:E; [vm_compute in E; discriminate E|].
-  destruct (handles ch (of_class Timeout)) as [cl|] eqn:H.
-  - exists ch, cl. split; [now left|]. split; [vm_compute; tauto|]. split; [reflexivity|].
-    vm_compute in E. inversion E; subst ch. vm_compute in H. inversion H; subst cl.
-    cbn. intros [X|[X|X]]; try discriminate; contradiction.
-  - vm_compute in E. inversion E; subst ch. vm_compute in H. discriminate H.
-Qed.
+  forallb (fun ch => match handles ch (of_class Timeout) with
+                     | Some cl => negb (existsb (fun a => match a with ResetDetTimeout => true | _ => false end) (c_actions cl))
+                     | None => false end) nonempty_chains = true.
+Proof. split; [vm_compute; tauto | vm_compute; reflexivity]. Qed.
